@@ -676,6 +676,23 @@ func (c *Ctx) checkLockset(r *fnRef, rule string) {
 			L.OK(rule, r.label, name, pos, fmt.Sprintf("%d accesses from %d threads, all inside Lock/Unlock of the same mutex", len(acc), nThreads))
 			continue
 		}
+		if why, ok := c.locksetErrOnly[cell.Comment]; ok {
+			// exception: the variable is only written on paths on which an error has
+			// been produced (the property at hand is stated for error-free runs)
+			allErr := true
+			for _, a := range acc {
+				if !a.write {
+					continue
+				}
+				if !dominatedByNonNilTest(a.in.Block()) {
+					allErr = false
+				}
+			}
+			if allErr {
+				L.OK(rule, r.label, name, pos, "written only under a `!= nil` error test ("+why+"); read-only in error-free runs")
+				continue
+			}
+		}
 		var unl []string
 		for _, a := range acc {
 			if len(a.locked) == 0 {
@@ -1004,3 +1021,21 @@ func (c *Ctx) consumerLoops(F *ssa.Function) []consumerLoop {
 }
 
 var _ = core.ModPath
+
+// dominatedByNonNilTest: b is dominated by the true branch of some `x != nil`.
+func dominatedByNonNilTest(b *ssa.BasicBlock) bool {
+	for d := b; d != nil; d = d.Idom() {
+		for _, p := range d.Preds {
+			ifi, ok := p.Instrs[len(p.Instrs)-1].(*ssa.If)
+			if !ok || p.Succs[0] != d || len(d.Preds) != 1 {
+				continue
+			}
+			if bo, ok := ifi.Cond.(*ssa.BinOp); ok && bo.Op == token.NEQ {
+				if k, ok := bo.Y.(*ssa.Const); ok && k.IsNil() {
+					return true
+				}
+			}
+		}
+	}
+	return false
+}
